@@ -307,8 +307,12 @@ class Engine:
                         or not hd < bd:
                     return self._skip(out)
             else:
-                hd = self._dur(hop, sr, sc["exact_dur"])
-                if int(hd * sr) != hop:
+                # the statement fixes floor() for the block only: the hop
+                # duration is one on which floor and round agree
+                hd = hop / sr
+                if not (sc["exact_dur"] and hd * sr == hop):
+                    hd = (hop + 0.25) / sr
+                if int(hd * sr) != hop or round(hd * sr) != hop:
                     return self._skip(out)
                 if sc["hop_mode"] == "lt" and not hd < bd:
                     return self._skip(out)
@@ -414,6 +418,13 @@ class Engine:
                     raise
                 # "rejected with an error": any exception type counts
                 trace.append(["construct", type(e).__name__, str(e)[:80]])
+                if expect_err is None and (
+                        sc["hop_mode"] == "eq"
+                        or (max_read is not None and max_read <= 0)):
+                    # hop_dur == block_dur / max_read <= 0: whether these
+                    # are accepted is not stated
+                    out["probes"]["rejection_not_judged"] = 1
+                    return self._skip(out)
                 if expect_err is None:
                     return V(prop + ".1", "constructor rejected valid "
                              "block_dur=%r hop_dur=%r (block %r hop %r "
@@ -540,6 +551,9 @@ class Engine:
         try:
             return ("ok", fn())
         except BaseException as e:  # noqa: B902
+            from .srcs import _harness_exc
+            if _harness_exc(e):
+                raise      # a gap of the simulated stdin: ERROR, no verdict
             return ("exc", e)
 
     _xsim = None
